@@ -224,6 +224,11 @@ def r20_2(ctx: Ctx, R: Resolver):
                         if isinstance(cmp_.ops[0], ast.Eq) and isinstance(cmp_.left, ast.Call) and call_name(cmp_.left) == "len" \
                                 and const_int(cmp_.comparators[0]) == len(allkeys) and pol and _conj(t, cmp_):
                             ok, how = True, "guarded by `%s` (all %d keys present)" % (norm(cmp_), len(allkeys))
+                # the presence test in any spelling: among the literals that hold on the way to the read (conjunctions,
+                # negated disjunctions, else-branches are all taken apart)
+                from ..cfg import cguards_of as _cgo, ctext as _ctx
+                if not ok and _ctx("%r in %s" % (key, rec)) in _cgo(sub, pmf, split=True):
+                    ok, how = True, "`%r in %s` holds on the way to the read" % (key, rec)
                 # try/except KeyError
                 for a in ancestors(sub, pmf):
                     if isinstance(a, ast.Try) and any(h.type is not None and "KeyError" in norm(h.type) for h in a.handlers) \
@@ -269,9 +274,31 @@ def r20_3(ctx: Ctx, R: Resolver):
         for c in calls_in(l):
             if call_name(c) in ("remove", "discard") and c.args and isinstance(c.args[0], ast.Subscript):
                 removed.add(const_int(c.args[0].slice))
-    ctx.ob("R20.3", sm, rem_loops[0] if rem_loops else "removal of explicit files", ok and removed == {0, 1, 2},
-           "all three files of every explicit species are taken out of the candidate sets before any candidate is "
-           "scanned", node=rem_loops[0] if rem_loops else sm.node, removed_triple_positions=sorted(x for x in removed if x is not None))
+    if not rem_loops:
+        # the same removal as set differences: the known files are collected (loop over the triples, all three positions)
+        # and subtracted from the candidate sets before the scans
+        col_loops = [n for n in walk_no_nested(sm.node) if isinstance(n, ast.For) and norm(n.iter) == known
+                     and any(call_name(c) in ("add", "update", "append") for c in calls_in(n))]
+        diffs = [s_ for s_ in walk_no_nested(sm.node) if (isinstance(s_, ast.AugAssign) and isinstance(s_.op, ast.Sub))
+                 or (isinstance(s_, ast.Expr) and isinstance(s_.value, ast.Call) and call_name(s_.value) == "difference_update")]
+        collected = set()
+        for l in col_loops:
+            for c in calls_in(l):
+                if call_name(c) in ("add", "append") and c.args and isinstance(c.args[0], ast.Subscript):
+                    collected.add(const_int(c.args[0].slice))
+        if col_loops and diffs and collected == {0, 1, 2} and scans and all(
+                cfg.node_of(d_).id in dom[cfg.node_of(s_).id] for d_ in diffs for s_ in scans):
+            ctx.ob("R20.3", sm, diffs[0], True, "all three files of every explicit species are taken out of the candidate sets before any "
+                   "candidate is scanned (collected and subtracted)", node=diffs[0], removed_triple_positions=[0, 1, 2])
+        else:
+            ctx.ob("R20.3", sm, "removal of explicit files", bool(col_loops or diffs), "the removal of the explicit files is not written "
+                   "in a recognised form; not decided on this tree" if (col_loops or diffs) else
+                   "all three files of every explicit species are taken out of the candidate sets before any candidate is scanned",
+                   undecided=bool(col_loops or diffs), node=sm.node)
+    else:
+        ctx.ob("R20.3", sm, rem_loops[0] if rem_loops else "removal of explicit files", ok and removed == {0, 1, 2},
+               "all three files of every explicit species are taken out of the candidate sets before any candidate is "
+               "scanned", node=rem_loops[0] if rem_loops else sm.node, removed_triple_positions=sorted(x for x in removed if x is not None))
     # the system is created with the explicit CG topologies, before scanning
     sysc = [c for c in calls_in(sm.node) if call_name(c) == "System"]
     oks = False
@@ -349,8 +376,13 @@ def r20_3(ctx: Ctx, R: Resolver):
             npaths += 1
             seen_excl = False
             for ev in p.events:
-                if ev[0] == "c" and "exclude" in norm(ev[1]) and " in " in norm(ev[1]) and ev[2] is False:
-                    seen_excl = True
+                if ev[0] == "c":
+                    from ..cfg import conjuncts as _cj
+                    # some literal that holds on this path says "the name is not in <something called exclude...>"
+                    if any("exclude" in t_ and " in " in t_ and pol_ is False for t_, pol_ in _cj(ev[1], ev[2])):
+                        seen_excl = True
+                    if "exclude" in norm(ev[1]) and " in " in norm(ev[1]) and " not in " not in norm(ev[1]) and ev[2] is False:
+                        seen_excl = True        # `<exclusion list given> and name in <list>` evaluated false
                 if ev[0] == "s" and isinstance(ev[1], ast.Expr) and isinstance(ev[1].value, ast.Call) \
                         and call_name(ev[1].value) == "append" and not seen_excl:
                     okx = False
@@ -361,6 +393,7 @@ def r20_3(ctx: Ctx, R: Resolver):
         ("%s.exclude is not None and %s in %s.exclude" % (argsv, loopv, argsv)).replace(" ", ""),
         ("%s in %s.exclude and %s.exclude is not None" % (loopv, argsv, argsv)).replace(" ", "")) \
         and isinstance(excl[0].body[-1], ast.Continue)
+    okx_path = okx
     okx = okx and exact
     # explicit species: the list starts from --mol when given
     amc = [c for c in calls_in(main.node) if call_name(c) == "auto_map"]
@@ -375,9 +408,15 @@ def r20_3(ctx: Ctx, R: Resolver):
             any(isinstance(x, ast.Assign) and norm(x.targets[0]) == molv and norm(x.value) == "%s.mol" % argsv for x in b_given)
     ctx.ob("R20.3", main, mols[0] if mols else "explicit species", okm,
            "the species list starts from the explicit --mol triples when given (empty otherwise)", node=mols[0] if mols else main.node)
-    ctx.ob("R20.3", main, loops[0] if loops else "discovery loop", okx and npaths >= 1,
-           "a discovered species reaches the mapping list only on paths where the exclusion test was evaluated "
-           "and false", node=loops[0] if loops else main.node, appending_paths=npaths)
+    if (okx and npaths >= 1) or not okx_path or not loops or npaths < 1:
+        ctx.ob("R20.3", main, loops[0] if loops else "discovery loop", okx and npaths >= 1,
+               "a discovered species reaches the mapping list only on paths where the exclusion test was evaluated "
+               "and false", node=loops[0] if loops else main.node, appending_paths=npaths)
+    else:
+        # every appending path evaluated an exclusion test, but the test is not spelled `args.exclude is not None and name in
+        # args.exclude`: its exact meaning is not decided here
+        ctx.ob("R20.3", main, loops[0], True, "the exclusion test is evaluated on every path that lists a discovered species, but it is "
+               "not in the recognised spelling; not decided on this tree", undecided=True, node=loops[0])
 
 
 def bind_args(call: ast.Call, callee: Func) -> Dict[str, ast.AST]:
